@@ -306,6 +306,8 @@ P_Egress(pk, wlen, maxage, obs) ==
        /\ ok' = [ok EXCEPT
              !.caps = @ /\ CapsIn(obs),
              !.mss = @ /\ \A i \in 1..Len(pk) : EmitOkMss(pk[i]),
+             \* C16: no UDP datagram above the limit ever reaches the wire
+             !.udp = @ /\ \A i \in 1..Len(pk) : (~IsTcp(pk[i]) => Len(pk[i].data) <= UdpMax),
              !.wnd = @ /\ \A i \in 1..Len(pk) : EmitOkWnd(pk[i]),
              \* C13: no connect is still pending once everything has run out
              !.cpend = @ /\ (idle2 >= R => \A c \in Ports : att[c].st # "pending"),
